@@ -79,6 +79,11 @@ type DFA struct {
 	// matchStates[sid] is true if state sid is a match state
 	matchStates []bool
 
+	// endMatches[sid] is true if match state sid is only a match at end of
+	// input (its match state is reached through an end anchor such as $ or \z).
+	// All other match states match at any position.
+	endMatches []bool
+
 	// Match slots: slots to apply when reaching each match state
 	// matchSlots[sid] contains the slot mask for match state sid
 	// These slots represent capture positions at the match (END positions)
@@ -97,15 +102,21 @@ type DFA struct {
 // This is allocated once and reused across searches to avoid allocations.
 type Cache struct {
 	// slots stores capture group positions: [start0, end0, start1, end1, ...]
-	// Group 0 is the entire match, groups 1+ are explicit captures
+	// Group 0 is the entire match, groups 1+ are explicit captures.
+	// Holds the captures of the best match found so far (the search result).
 	slots []int
+
+	// scratch holds the capture positions recorded along the path currently
+	// being followed. It is copied to slots whenever a match is recorded.
+	scratch []int
 }
 
 // NewCache creates a new cache for the given number of capture groups.
 // numCaptures includes group 0 (entire match).
 func NewCache(numCaptures int) *Cache {
 	return &Cache{
-		slots: make([]int, numCaptures*2),
+		slots:   make([]int, numCaptures*2),
+		scratch: make([]int, numCaptures*2),
 	}
 }
 
@@ -113,6 +124,9 @@ func NewCache(numCaptures int) *Cache {
 func (c *Cache) Reset() {
 	for i := range c.slots {
 		c.slots[i] = -1
+	}
+	for i := range c.scratch {
+		c.scratch[i] = -1
 	}
 }
 
@@ -134,6 +148,11 @@ func (d *DFA) IsMatch(input []byte) bool {
 	state := d.startState
 
 	for _, b := range input {
+		// Check for match (early termination)
+		if d.isMatchState(state) && !d.isEndMatchState(state) {
+			return true
+		}
+
 		class := d.classes.Get(b)
 		trans := d.getTransition(state, class)
 
@@ -142,11 +161,6 @@ func (d *DFA) IsMatch(input []byte) bool {
 		}
 
 		state = trans.NextState()
-
-		// Check for match (early termination)
-		if d.isMatchState(state) {
-			return true
-		}
 	}
 
 	// Check final state
@@ -168,6 +182,14 @@ func (d *DFA) isMatchState(state StateID) bool {
 		return false
 	}
 	return d.matchStates[state]
+}
+
+// isEndMatchState returns true if the given match state only matches at end of input.
+func (d *DFA) isEndMatchState(state StateID) bool {
+	if int(state) >= len(d.endMatches) {
+		return false
+	}
+	return d.endMatches[state]
 }
 
 // getMatchSlots returns the slot mask to apply when reaching the given match state.
